@@ -372,7 +372,18 @@ def check_kind(cg, rep, rule, fname, kind, mk, ret_stmt=False, value_from_last_s
             for lab, h in ext:
                 wx = 0
                 if ret_stmt:
-                    wx = h[1] if h[1] in (0, 1) else 0   # the return value may stay in %st(0)
+                    # the value stays for the epilogue: on the x87 stack exactly when the operand is long double; an aggregate by its layout
+                    # (one long double member: R20.5 decides the count per class); nothing for `return;` and for an operand of any other
+                    # type, void included (R20.16: the parser gives the operand the class of the function's return type)
+                    rk = [k for k in kids if _lab(k) == 'lhs']
+                    rc = a[kid_cell[id(rk[0])]] if rk else None
+                    rt = child_ty(it, ctx, rk[0]) if rk else None
+                    if rc == 'ld':
+                        wx = 1
+                    elif rc == 'other' and (rt is None or set(cat_of(rt)) & {'struct', 'union'}):
+                        wx = h[1] if h[1] in (0, 1) else 0
+                    else:
+                        wx = 0
                 if h != (0, wx):
                     msgs.append('jumps to %s with %%rsp %+d bytes and x87 depth %+d pending' % (lab, h[0], h[1]))
             ld = frozenset(_lab(k) for k in kids if a[kid_cell[id(k)]] == 'ld')
@@ -399,13 +410,13 @@ def run(P, rep, tier):
     rep.explanation = ('Effect system over the code generator: gen_expr/gen_stmt are abstractly interpreted once per node kind on an abstract '
                        'node obeying the typing relation; recursive calls are replaced by the contract being proved (machine stack 0, x87 +1 iff long double), '
                        'so the per-kind result composes by structural induction to all programs. %rsp and x87 motion of every emitted template is summed per path.')
-    rep.assumptions += ['children satisfy the contract (induction hypothesis)', 'typing relation of each kind as produced by add_type (R01.2; conditional, comma, assignment, statement expression and call nodes: R20.11, R20.10)',
+    rep.assumptions += ['children satisfy the contract (induction hypothesis)', 'typing relation of each kind as produced by add_type (R01.2; conditional, comma, assignment, statement expression and call nodes: R20.11, R20.10; the operand of a return statement: R20.16, decided on the parser)',
                         'instruction stack effects per Intel SDM for the mnemonics chibicc emits', 'ND_FUNCALL argument lists analysed separately (R20.3 call-site rule)',
                         'R20.14: no jump INTO a statement expression (GNU C forbids it): the case labels a switch jumps to and the target of a goto emitted at depth 0 are not deeper than the jump',
                         'R20.13: the term machine follows a run-time loop of the emitted code for one and two iterations',
                         'R20.15: a child that the arm\'s own emitted code reaches only through labels inside the child (the body of a switch) is not compared; children are stack-neutral (R20.1/2/7)']
     rep.rule('R20.1', 'every gen_expr arm: machine-stack effect 0 and x87 effect +1 iff the node is long double, assuming the same of its children', floor=60)
-    rep.rule('R20.2', 'every gen_stmt arm: machine-stack effect 0 and x87 effect 0 (return: value left for the epilogue)', floor=12)
+    rep.rule('R20.2', 'every gen_stmt arm: machine-stack effect 0 and x87 effect 0 (return: the value is left for the epilogue - on the x87 stack exactly when the operand is long double, by its layout for an aggregate, nothing for any other operand type, void included, and for `return;`)', floor=12)
     rep.rule('R20.3', '`depth` bookkeeping equals emitted %rsp motion on every path', floor=40)
     _record_depth(cg)
     # hook: remember root in ctx
@@ -431,6 +442,8 @@ def run(P, rep, tier):
     r_value(cg, rep)
     r_ret_buffer(P, rep)
     r_typing_relation(P, rep)
+    from ..lib_c20ret import r_return_shape
+    r_return_shape(P, rep)          # R20.16: the operand the parser gives a return node has the x87 class of the function's return type
     rep.rule('R20.7', 'every gen_addr arm: machine-stack effect 0 and x87 effect 0 (an address is left in %rax only), assuming the contract of its children; an operand evaluated only for its side effects is discarded there as well', floor=5)
     ahandled = expr_kinds_handled(cg, 'gen_addr')
     if len(ahandled) < 4:
@@ -955,8 +968,8 @@ def preset_stmt(cg, kind):
         elif kind == 'ND_GOTO_EXPR':
             n.fields['lhs'] = cg.node('lhs', ty=cg.tcell('lhs.ty', only=('ptr',)))
         elif kind == 'ND_RETURN':
-            # the operand has the function's return type; aggregates with a few concrete sizes
-            t = cg.tcell('lhs.ty', only=SCALAR + ('struct', 'union'), agg_sizes=(4, 8, 12, 16, 24))
+            # the operand has the function's return type (R20.16 decides that on the parser); aggregates with a few concrete sizes
+            t = cg.tcell('lhs.ty', only=SCALAR + ('void', 'struct', 'union'), agg_sizes=(4, 8, 12, 16, 24))     # void: `return e;` in a void function (e converted to void)
             lhs = cg.node('lhs', ty=t)
             from ..interp import Cell
             n.fields['lhs'] = View(Cell([0, lhs], 'node.lhs'))
